@@ -6,7 +6,7 @@ _PENDING = "not claimed yet: model/theorems for this property are still being bu
 NOT_APPLICABLE = {f"C{n:02d}": _PENDING for n in range(1, 21)}
 META = {
  "C04": {
-  "text": "Proved in Lean for all old/new byte strings and all block sizes > 0: both generators (in-memory and streaming, the latter for every window ≥ block size, hence for sy's 256 KiB window and block sizes ≤ 128 KiB) emit op lists whose application to old yields new; rolling Adler-32 equals the direct checksum after any number of rolls (n·255 < 2^32); checksums tile old; copies stay in range. The model is tied to src/delta/*.rs by comparing op lists, checksums, digests and apply results byte for byte on generated pairs each run. Partial: the JSON+zstd wire leg is covered by the oracle at binary level, its Lean round-trip theorem is still to come.",
+  "text": "Proved in Lean for all old/new byte strings and all block sizes > 0: both generators (in-memory and streaming, the latter for every window ≥ block size, hence for sy's 256 KiB window and block sizes ≤ 128 KiB) emit op lists whose application to old yields new; rolling Adler-32 equals the direct checksum after any number of rolls (n·255 < 2^32); checksums tile old; copies stay in range. The model is tied to src/delta/*.rs by comparing op lists, checksums, digests and apply results byte for byte on generated pairs each run. The delta survives serde_json + zstd + the remote helper's magic sniffing (wire_roundtrip, wire_roundtrip_uncompressed), composed with both generators (C04_wire_mem, C04_wire_stream(_sy)); the real sy-remote checksums / apply-delta binaries are driven end to end each run.",
   "design_ref": "DESIGN.md §6 C04",
   "note": "Trusted: Lean kernel; hand-written model + differential harness (generator quality bounds what K sees); xxh3 collision-freeness on compared blocks (NoCollision); File::read full-buffer behaviour; zstd round trip.",
   "technique": "Lean 4 theorem (induction over the generator loops) + differential correspondence model vs. implementation",
@@ -28,5 +28,11 @@ META = {
   "design_ref": "DESIGN.md §6 C19",
   "note": "Trusted: Lean kernel; model + engine stream; regex anchors of the translator for the log sink / error events.",
   "technique": "Lean 4 theorem (bookkeeping invariant) + differential correspondence of the JSON stream",
+ },
+ "C14": {
+  "text": "Proved in Lean for all byte strings, names, sizes, modes and samples: the compression decision never answers Lz4 (decision_range); the codec dispatch round-trips given lossless codecs (dispatch_roundtrip); for every decision the remote file written through the sender's branch + sy-remote receive-file (or SFTP for Compression::None) has exactly the original bytes and the source mtime in whole seconds, including empty, incompressible and magic-prefixed payloads (receive_file_transparent, receive_file_mtime) — with the helper-alone and Lz4-route counterexamples proved to show what the theorem depends on; the sparse protocol (gather, regions JSON, set_len + seek + write) rebuilds the content for every region list satisfying the SEEK_DATA/SEEK_HOLE contract (sparse_reconstruct, sparse_helper_transparent, regions_json_roundtrip), all-hole / failed detection falls back to the regular path (all_hole_falls_back) and SshTransport::copy_file as a whole is transparent (copy_file_remote_transparent); both local sparse copiers reproduce the content (sparse_local_seek, sparse_local_blocks). Partial in the sense of DESIGN §6 C14: zstd / lz4 themselves are hypotheses (Codec.Sound, Codec.Lossless) validated on every generated payload, kernel hole reporting is the hypothesis Covers, SSH/SFTP are assumed transparent.",
+  "design_ref": "DESIGN.md §6 C14",
+  "note": "Trusted: Lean kernel; hand-written model + differential harness against the library and the real sy-remote binary (ssh.rs sender side is replayed with the same library calls, not executed); third-party codecs (hypotheses, validated); kernel SEEK_DATA/SEEK_HOLE and pwrite/ftruncate semantics; exact-rational reading of the f64 ratio test.",
+  "technique": "Lean 4 theorems (case analysis of the decision, pointwise invariant over the region-write fold, JSON printer/parser round trip) + differential correspondence model vs. library and real helper binary + snapshot oracle",
  },
 }
